@@ -14,7 +14,7 @@ prop("C02", "exploration",
      TB + "the slice reader as baseline (judged by C01).",
      "runtime monitor: relational comparison of three source kinds under enumerated chunkings and Pending scripts")
 prop("C03", "exploration",
-     "Runtime totality monitoring: every read call and every payload accessor runs under catch_unwind with assertions on the call bound (2*len+3), sticky Eof, position monotonicity and error-position order; all byte strings of length <=2 over 256 values, length 3 over a 48-class set, enumerations and millions of random/mutated inputs; Reader and NsReader; slice, buffered and async sources; read_to_end / read_text calls after any event for any open element; raw stream() reads; scale documents (lengths, counts and depths at 32..8192, DOCTYPEs with hundreds of unbalanced '<') in long pieces; a buffered source that delivers more bytes after Eof was returned (Eof must stay final). Thorough tier repeats the workload on a plain-release build and under ASan, valgrind memcheck and Miri.",
+     "Runtime totality monitoring: every read call and every payload accessor runs under catch_unwind with assertions on the call bound (2*len+3), sticky Eof, position monotonicity and error-position order; all byte strings of length <=2 over 256 values, length 3 over a 48-class set, enumerations and millions of random/mutated inputs; Reader and NsReader; slice, buffered and async sources; read_to_end / read_text calls after any event for any open element; raw stream() reads; scale documents (lengths, counts and depths at 32..8192, DOCTYPEs with hundreds of unbalanced '<') in long pieces; a buffered source that delivers more bytes after Eof was returned (Eof must stay final); raw reads through the synchronous side of stream() (read into oversized buffers, read_exact that cannot be satisfied, read_to_end) between events: the position advances by what was returned and is the input length at Eof. Thorough tier repeats the workload on a plain-release build and under ASan, valgrind memcheck and Miri.",
      TB + "termination is judged by the logical call bound, never by wall-clock time.",
      "runtime monitor: catch_unwind + invariant assertions; sanitizer layers (Miri, ASan, valgrind) in the thorough tier")
 prop("C04", "exploration",
